@@ -553,6 +553,20 @@ def r6_timeout_order(ctx):
     ctx.check(el, 'elapsed-is-err', 'a reached deadline is returned as Err(Elapsed)', g.where())
 
 
+def _policy_row_ok(var, r, is_timeout, is_now, is_period):
+    """the MissedTickBehavior table: Burst -> timeout + period ; Delay -> now + period ; Skip -> now + period - ((now - timeout) mod period)"""
+    r = peel(r)
+    add_of = lambda x, p, q: peel(x)[0] == 'call' and peel(x)[1].endswith('::add') and len(peel(x)[2]) == 2 and p(peel(x)[2][0]) and q(peel(x)[2][1])
+    if var == 'Burst':
+        return add_of(r, is_timeout, is_period)
+    if var == 'Delay':
+        return add_of(r, is_now, is_period)
+    if var == 'Skip':
+        return r[0] == 'call' and r[1].endswith('::sub') and len(r[2]) == 2 and add_of(r[2][0], is_now, is_period) and \
+            any(x[0] == 'bin' and x[1] == 'Rem' for x in walk(r[2][1])) and any(is_timeout(x) for x in walk(r[2][1]))
+    return False
+
+
 def r7_interval(ctx):
     ctx.set_rule('C05.R7')
     f = ctx.anchor('des::time::interval::Interval::poll_tick')
@@ -606,6 +620,11 @@ def r7_interval(ctx):
         elif late is True:
             n_late += 1
             pol = strat is not None and strat[0] == 'field' and args_ok
+            if not pol and not (v[0] == 'call' and v[1] == NT):
+                # the policy applied in place: the path tests the configured behaviour and re-arms by that row of the table
+                var = next((a[2] for _, a in path_atoms(f, path, decs) if a and a[0] == 'is' and isinstance(a[2], str) and a[2] in ('Burst', 'Delay', 'Skip')
+                            and any(x[0] == 'field' and x[2] == 'missed_tick_behavior' for x in walk(a[1]))), None)
+                pol = var is not None and _policy_row_ok(var, v, is_deadline, is_now, is_period)
             ctx.check(pol, 'missed-rearm', 'a missed tick is re-armed by the configured MissedTickBehavior from (deadline, now, period)', f.where_path(path), show(v)[:200])
     ctx.floor('on-time re-arm paths of poll_tick', n_on, 1)
     ctx.floor('missed-tick re-arm paths of poll_tick', n_late, 1)
@@ -618,15 +637,13 @@ def r7_interval(ctx):
             var = next((a[2] for _, a in path_atoms(fn_, path, decs) if a and a[0] == 'is' and isinstance(a[2], str) and a[2] in ('Burst', 'Delay', 'Skip')), None)
             r = path_ret_resolved(fn_, path)
             r = peel(r) if r is not None else ('unknown',)
-            base_is = lambda x, name: peel(x)[0] == 'arg' and peel(x)[2] == name
+            base_is = lambda name: (lambda x: peel(x)[0] == 'arg' and peel(x)[2] == name)
             if var in ('Burst', 'Delay'):
                 want = 'timeout' if var == 'Burst' else 'now'
-                okp = r[0] == 'call' and r[1].endswith('::add') and len(r[2]) == 2 and base_is(r[2][0], want) and base_is(r[2][1], 'period')
+                okp = _policy_row_ok(var, r, base_is('timeout'), base_is('now'), base_is('period'))
                 ctx.check(okp, 'policy-%s' % var, 'MissedTickBehavior::%s re-arms at %s + period' % (var, want), fn_.where_path(path), show(r)[:160])
             elif var == 'Skip':
-                okp = r[0] == 'call' and r[1].endswith('::sub') and len(r[2]) == 2 and peel(r[2][0])[0] == 'call' and peel(r[2][0])[1].endswith('::add') and \
-                    base_is(peel(r[2][0])[2][0], 'now') and base_is(peel(r[2][0])[2][1], 'period') and \
-                    any(x[0] == 'bin' and x[1] == 'Rem' for x in walk(r[2][1])) and any(x[0] == 'arg' and x[2] == 'timeout' for x in walk(r[2][1]))
+                okp = _policy_row_ok(var, r, base_is('timeout'), base_is('now'), base_is('period'))
                 ctx.check(okp, 'policy-Skip', 'MissedTickBehavior::Skip re-arms at the next multiple of the period after now, counted from the missed deadline', fn_.where_path(path), show(r)[:200])
     # returns the old deadline
     ok = False
